@@ -3256,11 +3256,13 @@ def _run_write_data(d, no_obs=()):
         fh.write('\n'.join(rows) + '\n')
 
 
-def _run_ext(labels, init, final, fixed, method):
-    """ext file: iteration 0 at the initial values, a last iteration and the final row at the final values, flags"""
+def _run_ext(labels, init, final, fixed, method, last=None):
+    """ext file: iteration 0 at the initial values, a last iteration and the final row at the final values, flags;
+    with `last` the last printed iteration has these values instead of those of the final row (same OBJ)"""
     tok = lambda x: '%.5E' % x  # noqa
+    last = final if last is None else last
     rows = [(0, {lab: tok(init[lab]) for lab in labels}, OBJTOKENS[0]),
-            (35, {lab: tok(final[lab]) for lab in labels}, OBJTOKENS[2]),
+            (35, {lab: tok(last[lab]) for lab in labels}, OBJTOKENS[2]),
             (ITER_FINAL, {lab: tok(final[lab]) for lab in labels}, OBJTOKENS[2]),
             (ITER_FIX, {lab: ('1.00000E+00' if lab in fixed else '0.00000E+00') for lab in labels},
              '0.0000000000000000')]
@@ -3430,6 +3432,10 @@ def _runmu_check(inp):
     for lab in fixed:
         final[lab] = init[lab]           # a FIXed parameter stays at its value
     labels = ['THETA1', 'THETA2', 'THETA3', 'SIGMA(1,1)', 'OMEGA(1,1)', 'OMEGA(2,1)', 'OMEGA(2,2)']
+    last = None
+    if inp.get('last') == 'differs':
+        # the last printed iteration is not repeated by the final row: MU_i is to be evaluated at row -1000000000
+        last = {lab: final[lab] if lab in fixed else (init[lab] + 2 * final[lab]) / 3 for lab in labels}
     pk = ['$PK']
     for i, (form, par) in enumerate(zip(forms, ('CL', 'V')), start=1):
         mu = {'lin': f'THETA({i})', 'log': f'LOG(THETA({i}))', 'cov': f'LOG(THETA({i})) + THETA(3)*LOG(WGT/3)',
@@ -3462,7 +3468,7 @@ def _runmu_check(inp):
         with open(os.path.join(d, 'run1.mod'), 'w') as fh:
             fh.write('\n'.join(lines) + '\n')
         with open(os.path.join(d, 'run1.ext'), 'w') as fh:
-            fh.write(_run_ext(labels, init, final, fixed, method))
+            fh.write(_run_ext(labels, init, final, fixed, method, last=last))
         with open(os.path.join(d, 'run1.phi'), 'w') as fh:
             fh.write(_render_phi([phi]))
         try:
@@ -3526,6 +3532,259 @@ def _runmu_inputs(tier):
                         continue
                     for vs in ((0, 1) if thorough else (0,)):
                         dom.append(dict(forms=list(forms), fix=fix, phc=phc, rows=rows, vs=vs))
+    # appended: ext files whose final row (-1000000000) does not repeat the last printed iteration
+    for forms in itertools.product(RUN_MU_FORMS, repeat=2):
+        for fix in (RUN_MU_FIX if thorough else ['none']):
+            for phc in ((True, False) if thorough else (True,)):
+                dom.append(dict(forms=list(forms), fix=fix, phc=phc, rows=['full'] * 3, vs=0, last='differs'))
+    return dom
+
+
+# ---- end to end on a synthetic run directory: ext files whose designated rows are written independently ----
+#
+# NONMEM designates row -1000000000 of the table of the last estimation step for the final estimates and the
+# final objective value, row -1000000001 for the standard errors, rows -1000000004 / -1000000005 for the sd/corr
+# form and row -1000000006 for the FIX flags.  The printed iterations are a trace; the final row need not repeat
+# the last printed iteration (estimates are re-evaluated / printed with other settings, BAYES reports the mean of
+# the samples), so the writer below generates every row on its own and the reference is the writer's input.
+
+C_RX_EXC = 'read_modelfit_results raises no exception on a run directory with a model and a complete ext file'
+C_RX_PE = ('read_modelfit_results: parameter_estimates are the values of row -1000000000 of the table of the last '
+           'estimation step (not those of a printed iteration or of an earlier step), under the model parameter names in '
+           'model order, FIXed parameters left out')
+C_RX_OFV = 'read_modelfit_results: ofv is the OBJ of row -1000000000 of the table of the last estimation step'
+C_RX_SE = ('read_modelfit_results: standard_errors are the values of row -1000000001 of the table of the last estimation '
+           'step under the model parameter names without FIXed parameters, and relative_standard_errors = standard error '
+           '/ final estimate')
+C_RX_SDC = ('parameter_estimates_sdcorr / standard_errors_sdcorr hold the final estimates / standard errors of the thetas '
+            'and the values of rows -1000000004 / -1000000005 for omegas and sigmas, FIXed parameters left out')
+C_RX_ITER = ('parameter_estimates_iterations and ofv_iterations hold, for every estimation step that printed iteration 0, '
+             'the printed iterations: iteration number, values of the estimated parameters, OBJ')
+C_RX_MEAN = ('parameter_estimates and ofv are those of row -1000000000 also when the OBJ of that row differs from the OBJ '
+             'of the last printed iteration (a BAYES step reports the mean over the samples in that row)')
+RX_LABELS = ['THETA1', 'THETA2', 'THETA3', 'SIGMA(1,1)', 'OMEGA(1,1)', 'OMEGA(2,1)', 'OMEGA(2,2)']       # file order
+RX_MODEL_ORDER = ['THETA1', 'THETA2', 'THETA3', 'OMEGA(1,1)', 'OMEGA(2,1)', 'OMEGA(2,2)', 'SIGMA(1,1)']
+RX_NAMES = {'THETA1': 'TVCL', 'THETA2': 'TVV', 'THETA3': 'TVCOV', 'OMEGA(1,1)': 'OMEGA_1_1', 'OMEGA(2,1)': 'OMEGA_2_1',
+            'OMEGA(2,2)': 'OMEGA_2_2', 'SIGMA(1,1)': 'SIGMA_1_1'}
+RX_INIT = {'THETA1': 0.5, 'THETA2': 1.5, 'THETA3': 0.75, 'SIGMA(1,1)': 0.02, 'OMEGA(1,1)': 0.1, 'OMEGA(2,1)': 0.01,
+           'OMEGA(2,2)': 0.2}
+RX_ITERS = [[0, 5, 9], [0, 9], [0], []]
+RX_FINALS = ['copy', 'all'] + RX_LABELS + ['mean']
+
+
+def _rx_fixset(fix, block):
+    fixed = {0: [], 1: ['THETA3'], 2: ['OMEGA(1,1)', 'OMEGA(2,1)', 'OMEGA(2,2)'] if block else ['OMEGA(2,2)'],
+             3: ['SIGMA(1,1)']}[fix]
+    return fixed if block else fixed + ['OMEGA(2,1)']
+
+
+def _rx_tables(inp):
+    """the tables of the ext file (one per estimation step), every row generated on its own"""
+    e5 = lambda x: '%.5E' % x  # noqa
+    block, iters_last = inp['block'], inp['iters']
+    fixed = _rx_fixset(inp['fix'], block)
+    init = dict(RX_INIT)
+    if not block:
+        init['OMEGA(2,1)'] = 0.0
+    zero = '0.0000000000000000'
+    tables = []
+    for s in range(1, inp['nsteps'] + 1):
+        last_step = s == inp['nsteps']
+        iters = iters_last if last_step else [0, 4, 8]
+        rows = []
+        val = lambda lab, k: init[lab] if lab in fixed else init[lab] * (1 + 0.07 * k + 0.013 * (s - 1))  # noqa
+        for k, it in enumerate(iters):
+            rows.append((it, {lab: e5(val(lab, k)) for lab in RX_LABELS}, OBJTOKENS[(k + 2 * s) % len(OBJTOKENS)]))
+        klast = len(iters) - 1 if iters else 3
+        objf = OBJTOKENS[(klast + 2 * s) % len(OBJTOKENS)]
+        final = {lab: val(lab, klast) for lab in RX_LABELS}
+        how = inp['final'] if last_step else 'copy'
+        if how == 'mean':
+            objf = OBJTOKENS[(klast + 2 * s + 3) % len(OBJTOKENS)]
+        for lab in RX_LABELS:
+            if lab not in fixed and (how in ('all', 'mean') or how == lab):
+                final[lab] *= 0.9973 if how == 'mean' else 1.0021
+        rows.append((ITER_FINAL, {lab: e5(final[lab]) for lab in RX_LABELS}, objf))
+        if inp['se'] or not last_step:
+            se = {lab: 0.1 * abs(final[lab]) * (1 + 0.1 * j) for j, lab in enumerate(RX_LABELS)}
+            big = '1.00000E+10'
+            rows.append((ITER_SE, {lab: big if lab in fixed else e5(se[lab]) for lab in RX_LABELS}, zero))
+            sd = {}
+            for lab in RX_LABELS:
+                if lab.startswith('THETA'):
+                    sd[lab] = 0.0
+                elif lab == 'OMEGA(2,1)':
+                    sd[lab] = final[lab] / math.sqrt(final['OMEGA(1,1)'] * final['OMEGA(2,2)'])
+                else:
+                    sd[lab] = math.sqrt(final[lab])
+            rows.append((ITER_SDC, {lab: e5(sd[lab]) for lab in RX_LABELS}, zero))
+            rows.append((ITER_SESDC, {lab: ('0.00000E+00' if lab.startswith('THETA') else big if lab in fixed
+                                            else e5(0.37 * se[lab] / (abs(sd[lab]) + 0.5))) for lab in RX_LABELS}, zero))
+        if inp['fixrow']:
+            rows.append((ITER_FIX, {lab: ('1.00000E+00' if lab in fixed else '0.00000E+00') for lab in RX_LABELS}, zero))
+        if last_step:
+            method = METHODS[4] if how == 'mean' else METHODS[0] if inp['nsteps'] == 1 else METHODS[2]
+        else:
+            method = METHODS[3]
+        tables.append(dict(number=s, method=method, file_order=RX_LABELS, rows=rows, problem=1, sub=0))
+    return tables, fixed
+
+
+def _rx_model(inp, fixed):
+    block = inp['block']
+    fx = lambda lab: ' FIX' if lab in fixed else ''  # noqa
+    lines = RUN_MODEL_HEAD + ['$PK', 'CL = THETA(1)*EXP(ETA(1))*(WGT/3)**THETA(3)', 'V = THETA(2)*EXP(ETA(2))', 'S1 = V']
+    lines += RUN_MODEL_ERROR
+    lines += [f'$THETA (0,0.5){fx("THETA1")} ; TVCL', f'$THETA (0,1.5){fx("THETA2")} ; TVV',
+              f'$THETA (0,0.75){fx("THETA3")} ; TVCOV']
+    if block:
+        lines.append(f'$OMEGA BLOCK(2){fx("OMEGA(1,1)")} 0.1 0.01 0.2')
+    else:
+        lines += [f'$OMEGA 0.1{fx("OMEGA(1,1)")}', f'$OMEGA 0.2{fx("OMEGA(2,2)")}']
+    lines.append(f'$SIGMA 0.02{fx("SIGMA(1,1)")}')
+    for s in range(1, inp['nsteps'] + 1):
+        if s < inp['nsteps']:
+            lines.append('$ESTIMATION METHOD=SAEM INTERACTION NBURN=200 NITER=100')
+        elif inp['final'] == 'mean':
+            lines.append('$ESTIMATION METHOD=BAYES INTERACTION NBURN=100 NITER=100')
+        elif not inp['iters']:
+            lines.append('$ESTIMATION METHOD=1 INTERACTION MAXEVAL=0')
+        elif inp['nsteps'] == 1:
+            lines.append('$ESTIMATION METHOD=1 INTERACTION')
+        else:
+            lines.append('$ESTIMATION METHOD=IMP INTERACTION NITER=10')
+    return lines
+
+
+def _runext_check(inp):
+    import tempfile
+
+    from pharmpy.tools import read_modelfit_results
+
+    tables, fixed = _rx_tables(inp)
+    ext = _render_ext(tables)
+    lines = _rx_model(inp, fixed)
+    tag = json.dumps(_js(inp))
+    with tempfile.TemporaryDirectory() as d:
+        _run_write_data(d)
+        with open(os.path.join(d, 'run1.mod'), 'w') as fh:
+            fh.write('\n'.join(lines) + '\n')
+        with open(os.path.join(d, 'run1.ext'), 'w') as fh:
+            fh.write(ext)
+        try:
+            res = read_modelfit_results(os.path.join(d, 'run1.mod'))
+            pe, ofv, ses, rse = res.parameter_estimates, res.ofv, res.standard_errors, res.relative_standard_errors
+            pesd, sesd = res.parameter_estimates_sdcorr, res.standard_errors_sdcorr
+            pit, oit = res.parameter_estimates_iterations, res.ofv_iterations
+        except Exception as e:
+            return [(FID_PARSE, C_RX_EXC, f'{tag}: raised {type(e).__name__}: {e} | ext:\n{ext}')]
+    live = [lab for lab in RX_MODEL_ORDER if lab not in fixed]
+    names = [RX_NAMES[lab] for lab in live]
+    rows = {it: (cells, obj) for it, cells, obj in tables[-1]['rows']}
+    fcells, fobj = rows[ITER_FINAL]
+    want_pe = {RX_NAMES[lab]: float(fcells[lab]) for lab in live}
+    mean = inp['final'] == 'mean'
+    fails = []
+
+    def ser_ok(ser, want, ordered=True):
+        if ser is None or not hasattr(ser, 'index'):
+            return False
+        if (list(ser.index) != list(want)) if ordered else (sorted(ser.index) != sorted(want)):
+            return False
+        return all(_close(float(ser[k]), v, 1e-12, 0) for k, v in want.items())
+
+    def show(ser):
+        return ser.to_dict() if hasattr(ser, 'to_dict') else ser
+
+    if not ser_ok(pe, want_pe):
+        fails.append((FID_PARSE, C_RX_MEAN if mean else C_RX_PE,
+                      f'{tag}: parameter_estimates {show(pe)}; row -1000000000 of table {len(tables)} has {want_pe} | ext:\n{ext}'))
+    if not _close(ofv, float(fobj), 0, 0):
+        fails.append((FID_PARSE, C_RX_MEAN if mean else C_RX_OFV,
+                      f'{tag}: ofv {ofv}; row -1000000000 of table {len(tables)} has OBJ {fobj} | ext:\n{ext}'))
+    if mean:
+        return fails[:1]
+    if inp['se']:
+        want_se = {RX_NAMES[lab]: float(rows[ITER_SE][0][lab]) for lab in live}
+        want_rse = {k: want_se[k] / want_pe[k] for k in want_se}
+        if not (ser_ok(ses, want_se) and ser_ok(rse, want_rse, ordered=False)):
+            fails.append((FID_PARSE, C_RX_SE, f'{tag}: standard_errors {show(ses)} relative_standard_errors {show(rse)}; '
+                                              f'row -1000000001 has {want_se}, final estimates {want_pe} | ext:\n{ext}'))
+        want_pesd = {RX_NAMES[lab]: float((fcells if lab.startswith('THETA') else rows[ITER_SDC][0])[lab]) for lab in live}
+        want_sesd = {RX_NAMES[lab]: float((rows[ITER_SE][0] if lab.startswith('THETA') else rows[ITER_SESDC][0])[lab])
+                     for lab in live}
+        if not (ser_ok(pesd, want_pesd, ordered=False) and ser_ok(sesd, want_sesd, ordered=False)):
+            fails.append((FID_PARSE, C_RX_SDC, f'{tag}: parameter_estimates_sdcorr {show(pesd)} standard_errors_sdcorr '
+                                               f'{show(sesd)}; written {want_pesd} / {want_sesd} | ext:\n{ext}'))
+    bad = None
+    try:
+        got_p = {(int(s), int(i)): r for (s, i), r in pit.iterrows()}
+        got_o = {(int(s), int(i)): float(v) for (s, i), v in oit.items()}
+        for t in tables:
+            its = [r for r in t['rows'] if r[0] >= 0]
+            if not its:
+                continue
+            if sorted(k[1] for k in got_p if k[0] == t['number']) != [r[0] for r in its] or \
+                    sorted(k[1] for k in got_o if k[0] == t['number']) != [r[0] for r in its]:
+                bad = (f'step {t["number"]} has iterations {sorted(k[1] for k in got_p if k[0] == t["number"])} / '
+                       f'{sorted(k[1] for k in got_o if k[0] == t["number"])}, printed {[r[0] for r in its]}')
+                break
+            for it, cells, obj in its:
+                r = got_p[(t['number'], it)]
+                for lab in live:
+                    if RX_NAMES[lab] not in r.index or not _close(float(r[RX_NAMES[lab]]), float(cells[lab]), 1e-12, 0):
+                        bad = bad or (f'step {t["number"]} iteration {it}: {RX_NAMES[lab]} is '
+                                      f'{r.get(RX_NAMES[lab])}, printed {cells[lab]}')
+                if not _close(got_o[(t['number'], it)], float(obj), 0, 0):
+                    bad = bad or f'step {t["number"]} iteration {it}: OFV {got_o[(t["number"], it)]}, printed {obj}'
+            if bad:
+                break
+    except Exception as e:
+        bad = f'raised {type(e).__name__}: {e}'
+    if bad:
+        fails.append((FID_PARSE, C_RX_ITER, f'{tag}: {bad} | ext:\n{ext}'))
+    return fails
+
+
+def _runext_inputs(tier):
+    dom = []
+
+    def add(**kw):
+        case = dict(dict(nsteps=1, iters=RX_ITERS[0], final='copy', fix=0, block=False, se=True, fixrow=True), **kw)
+        fixed = _rx_fixset(case['fix'], case['block'])
+        if case['final'] in fixed:
+            return                            # a FIXed parameter does not move
+        if not case['iters'] and case['final'] not in ('copy', 'mean'):
+            return                            # no printed iteration the final row could differ from
+        if case not in dom:
+            dom.append(case)
+
+    if tier == 'thorough':
+        for nsteps in (1, 2):
+            for iters in RX_ITERS:
+                for se, fixrow in ((True, True), (False, True), (True, False)):
+                    for fix in range(4):
+                        for block in (False, True):
+                            for final in RX_FINALS:
+                                add(nsteps=nsteps, iters=iters, final=final, fix=fix, block=block, se=se, fixrow=fixrow)
+        return dom
+    for fix in range(4):
+        for block in (False, True):
+            for final in RX_FINALS:
+                add(final=final, fix=fix, block=block)
+    for fix in range(4):
+        for block in (False, True):
+            for final in ('copy', 'all', 'mean'):
+                add(nsteps=2, final=final, fix=fix, block=block)
+    for iters in RX_ITERS[1:]:
+        for nsteps in (1, 2):
+            for final in ('copy', 'all', 'THETA1', 'mean'):
+                for fix in (0, 1):
+                    add(nsteps=nsteps, iters=iters, final=final, fix=fix, block=bool(fix))
+    for se, fixrow in ((False, True), (True, False)):
+        for fix in range(4):
+            for final in ('copy', 'all'):
+                add(final=final, fix=fix, block=fix == 2, se=se, fixrow=fixrow)
     return dom
 
 
@@ -3539,6 +3798,7 @@ NM_KINDS = {
     'e2e': (_e2e_check, _e2e_inputs, 8),
     'runtab': (_runtab_check, _runtab_inputs, 32),
     'runmu': (_runmu_check, _runmu_inputs, 4),
+    'runext': (_runext_check, _runext_inputs, 8),
 }
 
 
@@ -3576,7 +3836,9 @@ def bounded_nonmem_tables(tier):
     for part in _pool_map(_nm_worker, tasks):
         col.merge(part)
     th = tier == 'thorough'
-    ntab = {k: sum(1 for x in _runtab_inputs(tier) if len(x['tables']) == k) for k in (1, 2, 3)}
+    app = lambda x: any(c in ('DV', 'WRES') for t in x['tables'] for c in t['cols'])  # noqa  (appended layouts)
+    ntab = {k: sum(1 for x in _runtab_inputs(tier) if len(x['tables']) == k and not app(x)) for k in (1, 2, 3)}
+    ntab_app = sum(1 for x in _runtab_inputs(tier) if app(x))
     bound = (f'ext files: <= 3 thetas x (1 omega | 2x2 omega block) x sigma, 4 FIX patterns, 5 iteration lists, all 32 '
              f'combinations of the special rows (-1000000000 / -1000000001,-2 / -3 / -4,-5 / -6,-7,-8), 7 method titles, '
              f'{3 if th else 1} value set(s), plus files with {3 if th else 2} estimation steps; phi: <= 3 etas x <= 3 individuals x '
@@ -3597,7 +3859,16 @@ def bounded_nonmem_tables(tier):
              f'({ntab[2]} layouts), and {ntab[3]} three-table layouts (predictions / residuals / derivatives per column); '
              f'phi files of a mu-referenced model: every pair of 5 MU forms (none, theta, log theta, log theta + theta*log '
              f'covariate, log of a product) x 3 FIX patterns x PHI/PHC | ETA/ETC columns with final estimates different '
-             f'from the initial ones, also with an individual without observations')
+             f'from the initial ones, also with an individual without observations; appended: $TABLE layouts whose column '
+             f'list names items of the appended block itself ({len(RUNTAB_BODIES_APP)} bodies with DV / PRED / RES / WRES first, in '
+             f'the middle or last x 4 prefixes x with/without NOAPPEND, {ntab_app} layouts: every single table, '
+             f'{"every such table with prefix none / ID TIME and 8 plain first tables x every such second table" if th else "3 such first tables x such second tables with prefix none / ID TIME, 2 of them x 14 plain second tables"}); '
+             f'mu-referenced runs whose ext final row does not repeat the last printed iteration (every pair of MU forms'
+             f'{" x 3 FIX patterns x PHI|ETA" if th else ", PHI columns"}); run directories with an ext file whose rows are all '
+             f'written independently ({len(_runext_inputs(tier))} files: 1-2 estimation steps x printed iterations [0,5,9] | [0,9] | [0] | none x '
+             f'final row = copy of the last iteration | differing in one estimated parameter (each of 7) | in all | in all and '
+             f'in OBJ (BAYES mean) x 4 FIX patterns x diagonal | block omega x with/without SE rows x with/without FIX-flag row'
+             f'{"" if th else "; quick: full final-row x FIX x omega product for one step, reduced combinations for the rest"})')
     return col.result(bound)
 
 
